@@ -94,6 +94,23 @@ def random_jobs(ctx, prop, fns, count):
         else:
             job["itr"] = rng.choice([0, 1, 2, 0.5, 5 if n <= 6 else 1])
         jobs.append(job)
+    if prop == "C01":
+        # randomizer_bin_und: binary undirected input of every density (sparse, and dense enough for
+        # the complement branch), fully connected nodes, alpha in {0, .3, 1}
+        for t in range(max(60, count // 5)):
+            n = rng.randint(4, 9)
+            A = np.zeros((n, n))
+            dens = rng.choice([0.15, 0.3, 0.5, 0.7, 0.9])
+            for i in range(n):
+                for j in range(i + 1, n):
+                    if rng.random() < dens:
+                        A[i, j] = A[j, i] = 1
+            if t % 9 == 0:
+                A[0, 1:] = A[1:, 0] = 1          # a fully connected node
+            if not rc.two_disjoint_edges(A, True):
+                continue
+            jobs.append(dict(fn="randomizer_bin_und", prop=prop, R0=A.tolist(), alpha=rng.choice([0, 0.3, 1.0]),
+                             seed=rng.randrange(2 ** 31), src="random"))
     return jobs
 
 
